@@ -1,6 +1,7 @@
 package main
 
 import (
+	"math"
 	"github.com/advancedclimatesystems/gonnx/ops"
 	"gorgonia.org/tensor"
 )
@@ -102,6 +103,39 @@ func genC03(e *emitter, tier string) {
 	e.emit(opCase("special", "Sub", nil, []*TJ{vals("u32", []int{2}, 0, 5), vals("u32", []int{2}, 1, 7)}, nil))
 	e.emit(opCase("special", "Div", nil, []*TJ{vals("i32", []int{4}, -7, 7, -7, 7), vals("i32", []int{4}, 2, -2, -2, 2)}, nil))
 	e.emit(opCase("special", "Div", nil, []*TJ{vals("i32", []int{1}, -2147483648), vals("i32", []int{1}, -1)}, nil))
+	// IEEE stream: fractional, huge, tiny, signed-zero, infinite and NaN operands; + - * / must be the
+	// correctly rounded result bit for bit, for every broadcast pattern incl. rank-0 operands on either side
+	pool := []float64{3, 7, 0.1, -2.5, 1e-3, 3e38, 2e38, 1e-40, 5e-324, 1.7e308, -0.0, 0, math.Inf(1), math.Inf(-1), math.NaN(), 10, 1.0 / 3, 49, -7, 6e-8, 16777217, 0.3}
+	pick := func(n, off, step int) []float64 {
+		v := make([]float64, n)
+		for i := range v {
+			v[i] = pool[(off+i*step)%len(pool)]
+		}
+		return v
+	}
+	fpairs := [][2][]int{{{4}, {4}}, {{2, 3}, {}}, {{}, {2, 3}}, {{2, 3}, {1}}, {{2, 3}, {3}}, {{2, 1}, {1, 3}}, {{}, {}}, {{5}, {1, 1}}, {{2, 2, 2}, {2, 1, 2}}}
+	reps := 3
+	if tier == "thorough" {
+		reps = 22
+	}
+	for _, dt := range []string{"f32", "f64"} {
+		// one tensor object at both positions (a node listing the same name twice, e.g. Equal(x, x) as "is not NaN")
+		for _, op := range append(append([]string{}, arithOps...), cmpOps...) {
+			x := fT(dt, []int{2, 4}, []float64{1.5, math.NaN(), math.Inf(1), 0, math.Copysign(0, -1), -3, math.NaN(), math.Inf(-1)})
+			c := &Case{Kind: "op", Stream: "ieee-shared", Op: op, Inputs: []*TJ{x, x}, Share: [][2]int{{1, 0}}}
+			c.Impl = runOpShared(op, nil, c.Inputs, nil, c.Share)
+			e.emit(c)
+		}
+		for _, op := range append(append([]string{}, arithOps...), cmpOps...) {
+			for pi, p := range fpairs {
+				for r := 0; r < reps; r++ {
+					a := fT(dt, p[0], pick(nelem(p[0]), r*5+pi, 1+r%3))
+					b := fT(dt, p[1], pick(nelem(p[1]), r*7+pi+1, 2+r%4))
+					e.emit(opCase("ieee", op, nil, []*TJ{a, b}, nil))
+				}
+			}
+		}
+	}
 }
 
 // bcastCase calls the broadcast helpers directly (C14).
